@@ -310,6 +310,17 @@ def names_round(rep, r, tier, tmp):
         shutil.rmtree(src, ignore_errors=True); shutil.rmtree(dest, ignore_errors=True)
 
 
+def converted_whole(vals):
+    """what `nitool inject` without -t makes of the value strings: all int if every one reads as int, else all float if every
+    one reads as float, else the strings"""
+    for conv in (int, float):
+        try:
+            return [conv(v) for v in vals]
+        except ValueError:
+            pass
+    return list(vals)
+
+
 def nitool_round(rep, r, tier, tmp):
     import nibabel as nb
     from dcmstack import nitool_cli
@@ -375,6 +386,33 @@ def nitool_round(rep, r, tier, tmp):
                 rep.failure('nitool dump followed by embed does not reproduce the extension', dict(C, tag='nitool:embed'))
         except Exception as e:
             rep.failure('nitool embed: %r' % e, dict(C, tag='nitool:embed'))
+        # ---- embed into a file that has an extension asks, and does what *this* invocation is answered (or forced to)
+        try:
+            cur = ext_json
+            for reply in r.sample(['y', 'n'], 2) + [r.choice(['y', 'n', '-f'])]:
+                nd = json.loads(ext_json)
+                nd['global']['const']['EmbedMarker'] = r.randrange(10 ** 6)
+                nj = os.path.join(d, 'new.json')
+                with contextlib.redirect_stdout(io.StringIO()):
+                    new_json = DcmMetaExtension.from_runtime_repr(nd).to_json()
+                open(nj, 'w').write(new_json)
+                if reply == '-f':
+                    rc, out = nitool(['embed', '-f', nj, bare])
+                else:
+                    rc, out = nitool(['embed', nj, bare], stdin_text=r.choice(['', 'x\n', 'maybe\n']) + reply + '\n' + 'y\nn\ny\nn\n')
+                want = cur if reply == 'n' else new_json
+                rep.evaluations += 1
+                rep.count('cli/nitool-embed-existing/' + reply)
+                with contextlib.redirect_stdout(io.StringIO()):
+                    now = NiftiWrapper.from_filename(bare).meta_ext.to_json()
+                if now != want:
+                    rep.failure('nitool embed into a file with an extension, answered %r: the file holds %s' % (
+                        reply, 'the old extension' if now == cur else ('the new extension' if now == new_json else 'something else')),
+                        dict(C, tag='nitool:embed-existing', reply=reply))
+                    break
+                cur = now
+        except Exception as e:
+            rep.failure('nitool embed into a file with an extension: %r' % e, dict(C, tag='nitool:embed-existing'))
         # ---- lookup prints what get_meta returns
         for k, cl, vals in case['ents'][:3]:
             idx = tuple(r.randrange(x) for x in case['shape'])
@@ -534,6 +572,16 @@ def nitool_round(rep, r, tier, tmp):
             key = r.choice(['newkey'] + [e[0] for e in case['ents']]) if trial != 4 else 'newkey'
             force = r.random() < 0.5
             vals = [str(r.randint(0, 9)) for _ in range(nvals)]
+            # the value strings are converted as a whole: all int, else all float, else all left as strings
+            vkind = r.choice(['int', 'int', 'int+float', 'float', 'text'])
+            if vkind != 'int' and nvals >= 2:
+                pool = {'int+float': ['2.5', '0.25'], 'float': ['2.5', '0.25', '1e1'], 'text': ['abc', 'x1']}[vkind]
+                if vkind == 'float':
+                    vals = [r.choice(pool) for _ in range(nvals)]
+                else:
+                    vals[r.randrange(nvals)] = r.choice(pool)
+                    if vkind == 'text' and nvals >= 3 and r.random() < 0.5:
+                        vals[[i for i in range(nvals) if vals[i] not in pool][0]] = '3.5'
             tgt = os.path.join(d, 'inj%d.nii.gz' % trial)
             shutil.copy(src, tgt)
             argv = ['inject', tgt, base, sub, key] + vals + (['-f'] if force else [])
@@ -556,9 +604,9 @@ def nitool_round(rep, r, tier, tmp):
                     try:
                         after.meta_ext.check_valid()
                         got = after.meta_ext.get_values_and_class(key)
-                        expv = [int(v) for v in vals]
+                        expv = converted_whole(vals)
                         expv = expv[0] if cname == 'gconst' else expv
-                        if got != (expv, (base, sub)):
+                        if got != (expv, (base, sub)) or json.dumps(got[0]) != json.dumps(expv):
                             rep.failure('nitool inject stored %r for %s, given %r in %s' % (got, key, expv, (base, sub)), dict(I, tag='nitool:inject:stored'))
                         for k2 in ext.get_keys():
                             if k2 != key and after.meta_ext.get_values_and_class(k2) != ext.get_values_and_class(k2):
@@ -579,7 +627,7 @@ def nitool_round(rep, r, tier, tmp):
                     rep.failure('a refused nitool inject changed the file', I)
             m0 = M.ext_to_model(ext)
             if m0 is not None:
-                reqs.append({'op': 'inject', 'ext': m0, 'cls': cname, 'key': key, 'values': [M.cv(int(v)) for v in vals], 'force': force})
+                reqs.append({'op': 'inject', 'ext': m0, 'cls': cname, 'key': key, 'values': [M.cv(v) for v in converted_whole(vals)], 'force': force})
                 meta.append((I, rc, M.ext_to_model(after.meta_ext) if (after_ok and rc == 0) else None))
         shutil.rmtree(d, ignore_errors=True)
     co = rep.corr.setdefault('inject', {'cases': 0, 'agree': 0, 'disagree': 0, 'skipped': 0})
